@@ -139,3 +139,100 @@ func VerifH_C08_select() {
 	vp.Cover("ALL.c08.found", found)
 	vp.Cover("ALL.c08.notfound", !found)
 }
+
+// Named types whose underlying type is not a struct (map, int, slice, func) with value- and
+// pointer-receiver methods, selected on values, pointers, and through value/pointer embedding.
+const verifNonStructSrc = `package g
+
+type M map[int]int // not string-keyed: m.key sugar (C11) does not apply
+
+func (m M) Len() int { return len(m) }
+func (m *M) Reset()  {}
+
+type I int
+
+func (i I) String() string { return "" }
+func (i *I) Inc()          {}
+
+type S []string
+
+func (s S) First() string { return "" }
+
+type F func(int) int
+
+func (f F) Call() int { return 0 }
+
+type EV struct {
+	M
+	I
+}
+type EP struct {
+	*M
+	*S
+	F
+}
+type Deep struct{ *EP }
+
+var (
+	vm  M
+	pm  *M
+	vi  I
+	pi  *I
+	vs  S
+	ps  *S
+	vf  F
+	pf  *F
+	ev  EV
+	pev *EV
+	ep  EP
+	pep *EP
+	dp  Deep
+)
+`
+
+func VerifH_C08_nonstruct() {
+	fset := token.NewFileSet()
+	f, err := parser.ParseFile(fset, "g.go", verifNonStructSrc, 0)
+	if err != nil {
+		panic(err)
+	}
+	tconf := types.Config{Importer: importer.Default(), Error: func(error) {}}
+	gpkg, _ := tconf.Check("example.com/g", fset, []*ast.File{f}, nil)
+	conf := &Config{Types: gpkg, Importer: verifImporter{}, HandleErr: func(err error) { panic(err) }}
+	pkg := NewPackage("", "g", conf)
+	cb := pkg.CB()
+	operands := []string{"vm", "pm", "vi", "pi", "vs", "ps", "vf", "pf", "ev", "pev", "ep", "pep", "dp"}
+	obj := gpkg.Scope().Lookup(operands[vp.Choose("operand", len(operands))])
+	name := []string{"Len", "Reset", "String", "Inc", "First", "Call", "M", "I", "S", "F", "EP", "zz"}[vp.Choose("name", 12)]
+	var kind MemberKind
+	var merr error
+	var ret *Element
+	class := vp.Try(func() {
+		cb.Val(obj)
+		kind, merr = cb.Member(name, 0, MemberFlagVal)
+		ret = cb.InternalStack().Pop()
+	})
+	vp.Assert("C17.c08.nonstruct.nofault", class != vp.FaultPanic)
+	if class != vp.NoPanic {
+		merr = verifErr("rejected")
+	}
+	o, _, _ := types.LookupFieldOrMethod(obj.Type(), true, gpkg, name)
+	found := kind != MemberInvalid && merr == nil
+	switch v := o.(type) {
+	case nil:
+		vp.Assert("C08.nonstruct.reject", !found)
+	case *types.Var:
+		vp.Assert("C08.nonstruct.field.found", found)
+		if found {
+			vp.Assert("C08.nonstruct.field.type", kind == MemberField && types.Identical(ret.Type, v.Type()))
+		}
+	case *types.Func:
+		vp.Assert("C08.nonstruct.method.found", found)
+		if found {
+			sig, ok := ret.Type.(*types.Signature)
+			vp.Observe("kind", int(kind))
+			vp.Observe("type", types.TypeString(ret.Type, nil))
+			vp.Assert("C08.nonstruct.method.type", kind == MemberMethod && ok && types.Identical(sig.Results(), v.Type().(*types.Signature).Results()))
+		}
+	}
+}
